@@ -48,7 +48,7 @@ pub fn check_one(ctx: &mut Ctx, family: &str, idx: u64, p: &PktM) {
 
 pub fn run(ctx: &mut Ctx) {
     let tier = ctx.tier;
-    let scale = if ctx.slow_tool { 0 } else { tier.pick(1u64, 40u64) };
+    let scale = if ctx.slow_tool { 0 } else { tier.pick(10u64, 1500u64) };
 
     // ---- single-record packets: every typed variant x boundary-biased tuples -----------------
     let per_type = if ctx.slow_tool { 3 } else { 400 * scale };
@@ -59,6 +59,9 @@ pub fn run(ctx: &mut Ctx) {
             let idx = ti as u64 * 1_000_000 + k;
             if !ctx.take("single", idx) {
                 continue;
+            }
+            if ctx.stop("single") {
+                break;
             }
             let mut r = ctx.rng("single", idx);
             let mut g = Gen::new(&mut r, Cfg { max_rest: 60, ..Default::default() });
@@ -87,6 +90,9 @@ pub fn run(ctx: &mut Ctx) {
     for idx in 0..n {
         if !ctx.take("multi", idx) {
             continue;
+        }
+        if ctx.stop("multi") {
+            break;
         }
         let mut r = ctx.rng("multi", idx);
         let me = r.usize(0, 8);
@@ -160,9 +166,12 @@ pub fn run(ctx: &mut Ctx) {
 
     // ---- big packets (thorough): up to 65535 bytes -----------------------------------------------------
     if tier == Tier::Thorough && !ctx.slow_tool {
-        for idx in 0..400u64 {
+        for idx in 0..4000u64 {
             if !ctx.take("big", idx) {
                 continue;
+            }
+            if ctx.stop("big") {
+                break;
             }
             let mut r = ctx.rng("big", idx);
             let target = r.usize(20_000, 65_000);
